@@ -6,7 +6,7 @@ From Synnax Require Import Cesium.LayoutOk Generated.Consts_C10 Cesium.Store Ces
      Cesium.UnaryIter Cesium.UnaryWrite Cesium.Read Monitors.Mon_C10
      Cesium.IndexSearchProofs Cesium.UnaryIterViews Cesium.UnaryIterViewsRun Cesium.LegacyWitness
      Cesium.DomIterProofs Cesium.DistanceProofs Cesium.UnaryIterExact Cesium.SliceProofs Cesium.UnaryIterSpec Cesium.UnaryIterRun
-     Cesium.TruthProofs Cesium.ReadProofs Cesium.LayoutCheck.
+     Cesium.TruthProofs Cesium.ReadProofs Cesium.ReadProofsBwd Cesium.LayoutCheck.
 Import ListNotations.
 Local Open Scope Z_scope.
 
@@ -104,8 +104,7 @@ Print Assumptions C10_distance_count.
 (* Full traversal: SeekFirst, then forward steps of any spans (explicit and automatic mixed),
    none reporting an error, until the view reaches the end of the bounds: the values returned,
    concatenated, are exactly the stored samples of the bounds — each once, in order.
-   _partial: same layout hypothesis; the backward traversal is covered by the correspondence
-   only (and is where the known finding F24 lives). *)
+   _partial: same layout hypothesis. *)
 Theorem C10_full_traversal_partial : forall P D var chunk b steps,
   layout_ok P D -> valid_bounds b -> Forall fwd_cmd steps ->
   let os := u_run P D var chunk false (u_open b) (SeekFirst :: steps) in
@@ -114,6 +113,19 @@ Theorem C10_full_traversal_partial : forall P D var chunk b steps,
   concat (map (fun o => UnaryIterSpec.frame_data (o_frame o)) os) = read_spec (layout_assoc P D) b.
 Proof. exact full_traversal_fwd. Qed.
 Print Assumptions C10_full_traversal_partial.
+
+(* ... and backwards: SeekLast, then backward steps of any spans, none reporting an error, until
+   the view reaches the start of the bounds (bounds start >= 0): the values, taken in reverse
+   step order, are exactly the stored samples of the bounds.  (The premise "no error" is where
+   the known finding F24 bites: Prev(AutoSpan) may report a spurious error.) *)
+Theorem C10_full_traversal_backward_partial : forall P D var chunk b steps,
+  layout_ok P D -> valid_bounds b -> 0 <= t_s b -> Forall bwd_cmd steps ->
+  let os := u_run P D var chunk false (u_open b) (SeekLast :: steps) in
+  Forall (fun o => o_err o = 0) os ->
+  t_s (o_view (last os (observe (u_open b) true))) = t_s b ->
+  concat (map (fun o => UnaryIterSpec.frame_data (o_frame o)) (rev os)) = read_spec (layout_assoc P D) b.
+Proof. exact full_traversal_bwd. Qed.
+Print Assumptions C10_full_traversal_backward_partial.
 
 (* the layout hypothesis holds for every layout accepted by the decidable check: well-formed
    index, sorted data domains, each data domain within a contiguous run of index domains *)
